@@ -327,7 +327,7 @@ def check_program(res, lines, rng, label, devices=('disk', 'bound', 'cas'), form
         # ---- does the listing re-enter as the same program? (typed line by line) --------------------------
         reenter = False
         if 'A' in formats and special is None:
-            if all(len(l) <= 254 for l in list0):
+            if all(len(l) <= 255 for l in list0):
                 with sb.box() as t:
                     ok = True
                     for l in list0:
@@ -463,6 +463,13 @@ def gen_program(rng, res):
         for i, n in enumerate(nums):
             text, _ = pg.simple_line(rng, b'T%d' % i, maxpad=rng.choice([20, 60, 245 - 30]))
             lines.append(b'%d %s' % (n, text[:248 - len(b'%d' % n)].rstrip(b' ')))
+        if rng.random() < 0.35:
+            # a line whose listing has exactly 253, 254 or 255 characters (the line buffer limit)
+            i = rng.randrange(len(lines))
+            total = rng.choice([253, 254, 255, 255])
+            head = b'%d REM ' % nums[i]
+            lines[i] = head + bytes(rng.choice(b'abcdefghijklmnopqrstuvwxyz0123456789') for _ in range(total - len(head)))
+            res.count('max_length_lines_seen')
         if any(len(l) > 200 for l in lines):
             res.count('long_lines_seen')
         return lines, 'simple', None
@@ -504,6 +511,8 @@ def run_directed(spec, res):
         ([b'10 PRINT "HELLO"', b'20 GOTO 10'], 'two-lines'),
         ([b'0 REM first', b'65529 END'], 'boundary-numbers'),
         ([b'10 A$="%s"' % (b'x' * 240)], 'long-line'),
+        # listings of exactly 254 and 255 characters: the line buffer limit
+        ([b'10 REM ' + b'x' * 247, b'20 PRINT "' + b'y' * 244 + b'"', b'30 REM ' + b'z' * 248, b'40 END'], 'max-length-lines'),
         ([b'10 REM'], 'one-empty-rem'),
         ([b'10 X=1.5:Y#=1D+10:Z%=&HFF:W=&O17:PRINT 100000;.5', b"20 ' \x80\xff high bytes", b'30 DATA 1, a b ,"c:d"'], 'literals'),
         ([b'%d PRINT %d' % (i, i) for i in range(1, 120)], 'many-short-lines'),
